@@ -19,7 +19,7 @@ func verifID(label string, max int) string {
 }
 
 var verifTypes = []string{"Patient", "List", "Observation", "MedicationRequest"}
-var verifBases = []string{"", "http://h", "http://a.com/my_fhir-1", "https://example.org:8080/fhir/r4", "http://a.b/c"}
+var verifBases = []string{"", "http://", "http://a.com/my_fhir-1", "http://h", "https://example.org:8080/fhir/r4", "http://a.b/c"} // "http://": an empty authority
 
 // C19: formatting an identity as a literal reference URI and parsing it back returns the same components, and the
 // canonical form equals the input (no redundant slashes), for relative, absolute and versioned forms.
@@ -104,6 +104,27 @@ func VerifHarness_C19_ArbitraryStringsNeverCrash() {
 	lit, err := LiteralInfoFromURI(s)
 	verifrt.Assert((err == nil) == (lit != nil), "either-a-result-or-an-error")
 	_, _ = IdentityFromRelativeURI(s)
+	verifrt.Reach("end")
+}
+
+// C19: the parsers of one reference string agree on what they accept: a relative reference with an arbitrary id (and
+// version) has an identity by IdentityFromRelativeURI exactly when LiteralInfoFromURI gives it one.
+func VerifHarness_C19_RelativeParsersAgree() {
+	typ := verifTypes[verifrt.Choose("type", 2)]
+	// the id is "x" followed by at most one arbitrary byte, or empty; the version comes from a menu (two arbitrary bytes
+	// and an arbitrary version through both parsers: 18000 paths, beyond the quick budget)
+	id := verifrt.NondetString("idTail", 1)
+	if !verifrt.NondetBool("emptyId") {
+		id = "x" + id
+	}
+	uri := typ + "/" + id + []string{"", "/_history/2", "/_history/@", "/_history/", "/_history/a b"}[verifrt.Choose("version", 5)]
+	ident, err := IdentityFromRelativeURI(uri)
+	lit, err2 := LiteralInfoFromURI(uri)
+	var viaLiteral bool
+	if err2 == nil && lit != nil {
+		_, viaLiteral = lit.Identity()
+	}
+	verifrt.Assert((err == nil && ident != nil) == viaLiteral, "relative-reference-parsers-accept-the-same-strings")
 	verifrt.Reach("end")
 }
 
